@@ -16,10 +16,11 @@ tamper   `none` | `garble` (payload replaced by something never sealed) | `algo`
 `cb.flow pub   <ringA> <ringB> <uri> <bad> <tamper>`             → `S=<sent> R=<event outcome>`
 `cb.flow call  <ringA> <ringB> <uri> <bad> <tamper>`             → `S=<sent> I=<invocation outcome> E=<error sent> O=<call outcome>`
 `cb.flow yield <ringA> <ringB> <uri> <bad> <tamper>`             → `S= I= Y=<yield sent> O=<call outcome>`   (`bad` = the RESULT value)
-`cb.flow error <ringA> <ringB> <uri> <bad> <tamper> <errorUri>`  → `S= I= E=<error sent> O=<call outcome>`  (`bad` = the ERROR args)
+`cb.flow error <ringA> <ringB> <uri> <bad> <tamper> <errorUri> [<mapped>]`  → `S= I= E=<error sent> O=<call outcome>`  (`bad` = the ERROR args)
+   mapped: the CALLER's error URI → class registry, `-` | `;`-separated `<uri>=<cls>:<any|noargs>`
    sent: `raised` | `clear` | `sealed` | `-` (leg not reached)
    event / invocation outcome: `invoked:<args>:<kwargs>:<enc 0|1>` | `ignored:<err>` | `encerror:<err>`
-   call outcome: `result:<args>:<kwargs>` | `apperror:<uri>:<args>:<kwargs>` | `encfailed:<err>` | `-`
+   call outcome: `result:<args>:<kwargs>` | `apperror:<uri>:<args>:<kwargs>` | `usererror:<cls>:<args>:<kwargs>` | `encfailed:<err>` | `-`
    payload values are the fixed tokens args=`a` (or `BAD`: not serialisable by the inner codec), kwargs=`k`
 -/
 
@@ -96,11 +97,29 @@ def invStr : InvOut String String → String
 def callStr : CallOut String String → String
   | .result a k => s!"result:{o2s a}:{o2s k}"
   | .appError u a k => s!"apperror:{String.ofList u}:{o2s a}:{o2s k}"
+  | .userError c a k => s!"usererror:{c}:{o2s a}:{o2s k}"
   | .encFailed e => s!"encfailed:{errName e}"
 
 def argTok (bad : String) : Option String := if bad = "1" then some "BAD" else some "a"
 
-def flow (dir : String) (rA rB : Codec String) (u : Uri) (bad : String) (t : Tamper) (eu : Uri) : Option String :=
+/-- caller-side registry token: `-` | `;`-separated `<uri>=<cls>:<any|noargs>` -/
+def parseMapped (s : String) : Option (List (Uri × String × String)) :=
+  if s = "-" then some [] else (s.splitOn ";").mapM (fun e => match e.splitOn "=" with
+    | [u, ck] => match ck.splitOn ":" with
+      | [c, k] => some (u.toList, c, k)
+      | _ => none
+    | _ => none)
+
+def mappedOf (tbl : List (Uri × String × String)) (u : Uri) : Option String :=
+  (tbl.find? (fun e => e.1 = u)).map (fun e => e.2.1)
+
+def ctorOkOf (tbl : List (Uri × String × String)) (c : String) (a : Option String) (k : Option String) : Bool :=
+  match tbl.find? (fun e => e.2.1 = c) with
+  | some e => if e.2.2 = "noargs" then a.isNone && k.isNone else true
+  | none => true
+
+def flow (dir : String) (rA rB : Codec String) (u : Uri) (bad : String) (t : Tamper) (eu : Uri)
+    (mp : List (Uri × String × String) := []) : Option String :=
   let kw : Option String := some "k"
   if dir = "pub" then
     let s := originate tbox tcodec rA u (argTok bad) kw 0
@@ -166,7 +185,7 @@ def flow (dir : String) (rA rB : Codec String) (u : Uri) (bad : String) (t : Tam
         | .raised => some s!"S={msgStr m} I={invStr i} E=raised O=-"
         | .msg em =>
           let (env, em') := applyTamper t eu em
-          some s!"S={msgStr m} I={invStr i} E={msgStr em} O={callStr (onError tbox tcodec rA env em')}"
+          some s!"S={msgStr m} I={invStr i} E={msgStr em} O={callStr (onErrorMapped tbox tcodec rA (mappedOf mp) (ctorOkOf mp) env em')}"
   else none
 
 def handle : List String → Option String
@@ -182,6 +201,9 @@ def handle : List String → Option String
   | ["cb.flow", dir, rA, rB, u, bad, t, eu] => do
       let a ← parseRing rA; let b ← parseRing rB; let t ← parseTamper t
       flow dir a b u.toList bad t eu.toList
+  | ["cb.flow", dir, rA, rB, u, bad, t, eu, mp] => do
+      let a ← parseRing rA; let b ← parseRing rB; let t ← parseTamper t; let mp ← parseMapped mp
+      flow dir a b u.toList bad t eu.toList mp
   | _ => none
 
 end Abverif.Drv.Cryptobox
